@@ -259,6 +259,8 @@ class FakeS3:
     def _on_params(self, params, model, context, **kw):
         op = model.name
         p = dict(params)
+        if isinstance(p.get('CopySource'), dict):
+            p['CopySource'] = dict(p['CopySource'])  # what was passed at call time, not what the dict becomes later
         label = self.label_for(p.get('Bucket'), p.get('Key'))
         th = threading.current_thread()
         call_id = next(self._call_ids)
